@@ -1,10 +1,26 @@
 // ---- shared spec vocabulary of the orchestration contracts (definitions only, no assumptions
 // except the `uninterp` functions, which stand for facts decided elsewhere or by OpenMLS) ----
 
-// decided in unit authz (decision table of validate_commit_authorization) — uninterpreted here
-pub uninterp spec fn commit_authorized(v: MlsView, c: StagedCommit, s: Sender) -> bool;
-// decided in unit authz (validate_commit_identities) — uninterpreted here
-pub uninterp spec fn commit_identities_unchanged(v: MlsView, c: StagedCommit, s: Sender) -> bool;
+// result of MDK::is_pure_self_update_commit — OUT OF REACH (iterator closures over OpenMLS objects):
+// the whitelist itself is unverified, its result is an uninterpreted function of (commit, leaf)
+pub uninterp spec fn pure_self_update(c: StagedCommit, i: LeafNodeIndex) -> bool;
+// C05 decision table, taken from the property text: the author must be a member, and either an
+// admin of the current epoch (admin set read from the MLS group context) or doing nothing but
+// refreshing its own key material
+pub open spec fn commit_authorized(v: MlsView, c: StagedCommit, s: Sender) -> bool {
+    s is Member && member_identity(v, s->Member_0) is Some && ext_valid(v.ext)
+    && (ext_admins(v.ext)@.contains(member_identity(v, s->Member_0)->Some_0) || pure_self_update(c, s->Member_0))
+}
+// C05 "no accepted commit or proposal changes the Nostr identity bound to an existing member"
+pub open spec fn proposal_identity_unchanged(v: MlsView, p: Proposal, s: Sender) -> bool {
+    (p is Update && s is Member && mls_member_exists(v, s->Member_0)) ==>
+        (member_identity(v, s->Member_0) is Some && leaf_identity(p->Update_0.leaf) == member_identity(v, s->Member_0))
+}
+pub open spec fn commit_identities_unchanged(v: MlsView, c: StagedCommit, s: Sender) -> bool {
+    (forall|k: int| 0 <= k < c.ups().len() ==> #[trigger] proposal_identity_unchanged(v, Proposal::Update(Box::new(c.ups()[k].up)), c.ups()[k].snd))
+    && ((c.path_leaf() is Some && s is Member && mls_member_exists(v, s->Member_0)) ==>
+        (member_identity(v, s->Member_0) is Some && leaf_identity(c.path_leaf()->Some_0) == member_identity(v, s->Member_0)))
+}
 
 // fields of the decoded group-data extension (uninterpreted projections of ExtData)
 pub uninterp spec fn ext_valid(e: ExtData) -> bool;       // NostrGroupDataExtension::from_group succeeds
